@@ -507,6 +507,7 @@ def run(tier: str, only=None) -> core.Result:
     full, deep, deeper = configs_for(tier)
     out = explorer.explore(RUN, full, fidelity=True)
     sched.absorb(res, "L1-full-product", RUN, out, full)
+    sched.debug_pass(res, "L1-full-product", RUN, full, every=2)
     out = explorer.explore(RUN, deep, fidelity=True)
     sched.absorb(res, "L2-all-placements", RUN, out, deep)
     bound = 4 if tier == "quick" else 5
